@@ -220,4 +220,197 @@ Section Phases.
         * eapply finishes_step; [apply (step_opaque_eof (p + len s0)%Z _ a br pw _ ltac:(lia) Hr')|reflexivity].
         * reflexivity.
   Qed.
+
+  (* ---------------- PathSt ---------------- *)
+  Definition path_char (sp : bool) (x : N) : bool :=
+    negb (x =? 47) && negb (sp && (x =? 92)) && negb (x =? 63) && negb (x =? 35)
+    && negb (RuneShouldBeEncoded (c_pathSet c) x).
+
+  Lemma step_path_char p buf a br pw u x l :
+    c_singlePct c = false ->
+    (-1 <= p)%Z -> rest (p + 1) = x :: l -> path_char (IsSpecialScheme c u) x = true ->
+    stepf (mk PathSt p false buf a br pw u) = Cont (mk PathSt (p + 1) false (buf ++ [x]) a br pw u).
+  Proof using Hrep Hfail.
+    intros Hsp Hp Hr Hx. destruct (rest_uncons (p + 1)%Z _ _ ltac:(lia) Hr) as [Hc [Hr' Hn]].
+    unfold path_char in Hx.
+    apply andb_true_iff in Hx. destruct Hx as [Hx H5]. apply andb_true_iff in Hx. destruct Hx as [Hx H4].
+    apply andb_true_iff in Hx. destruct Hx as [Hx H3]. apply andb_true_iff in Hx. destruct Hx as [H1 H2].
+    apply negb_true_iff in H1, H2, H3, H4, H5.
+    unfold_step. replace (n <=? p + 1)%Z with false by lia. cbv beta iota. rewrite Hc.
+    unfold isSpecialSchemeAndBackslash. rewrite H1, H2, H3, H4. cbn [negb orb andb].
+    quiet_enc; rewrite ?(pei_id c _ x Hsp H5), ?(pe_id c _ x H5); reflexivity.
+  Qed.
+
+  (* what PathSt does with the buffer at the end of a segment (transcribed from [step]) *)
+  Definition path_commit (u : url) (buf : str) (slashlike : bool) : url :=
+    let path := u_path u in
+    let replaceLast := c_collapse c && IsSpecialScheme c u && negb (is_nil path)
+                       && match last_opt path with Some s => is_nil s | None => false end in
+    if isDoubleDotPathSegment buf then
+      let u := set_path u (shortenPath (u_scheme u) path) (u_opaque u) in
+      if negb slashlike then addSegment u [] else u
+    else if isSingleDotPathSegment buf && negb slashlike then
+      if negb replaceLast then addSegment u [] else u
+    else if negb (isSingleDotPathSegment buf) then
+      let buf' :=
+        if str_eqb (u_scheme u) s_file && (is_nil path || (replaceLast && (len path =? 1)%Z))
+           && isWindowsDriveLetter buf && negb (c_skipDrive c)
+        then match buf with b0 :: _ => [b0; 58] | [] => buf end
+        else buf in
+      if negb replaceLast then addSegment u buf' else set_path u (replace_last path buf') (u_opaque u)
+    else u.
+
+  Lemma step_path_slash p buf a br pw u l :
+    (-1 <= p)%Z -> rest (p + 1) = 47 :: l ->
+    stepf (mk PathSt p false buf a br pw u) = Cont (mk PathSt (p + 1) false [] a br pw (path_commit u buf true)).
+  Proof using Hrep Hfail.
+    intros Hp Hr. destruct (rest_uncons (p + 1)%Z _ _ ltac:(lia) Hr) as [Hc [Hr' Hn]].
+    unfold_step. replace (n <=? p + 1)%Z with false by lia. cbv beta iota. rewrite Hc.
+    unfold isSpecialSchemeAndBackslash. replace (47 =? 92) with false by reflexivity.
+    rewrite !andb_false_r.
+    replace (47 =? 47) with true by reflexivity. replace (47 =? 63) with false by reflexivity.
+    replace (47 =? 35) with false by reflexivity. cbn [orb negb andb].
+    unfold path_commit. cbv zeta.
+    destruct (isDoubleDotPathSegment buf); [reflexivity|]. destruct (isSingleDotPathSegment buf); reflexivity.
+  Qed.
+
+  Lemma step_path_q p buf a br pw u l :
+    (-1 <= p)%Z -> rest (p + 1) = 63 :: l ->
+    stepf (mk PathSt p false buf a br pw u) =
+    Cont (mk QuerySt (p + 1) false [] a br pw (set_query (path_commit u buf false) (Some []))).
+  Proof using Hrep Hfail.
+    intros Hp Hr. destruct (rest_uncons (p + 1)%Z _ _ ltac:(lia) Hr) as [Hc [Hr' Hn]].
+    unfold_step. replace (n <=? p + 1)%Z with false by lia. cbv beta iota. rewrite Hc.
+    unfold isSpecialSchemeAndBackslash. replace (63 =? 92) with false by reflexivity.
+    rewrite !andb_false_r.
+    replace (63 =? 47) with false by reflexivity. replace (63 =? 63) with true by reflexivity.
+    cbn [orb negb andb]. unfold path_commit. cbv zeta.
+    destruct (isDoubleDotPathSegment buf); [reflexivity|]. destruct (isSingleDotPathSegment buf); reflexivity.
+  Qed.
+
+  Lemma step_path_h p buf a br pw u l :
+    (-1 <= p)%Z -> rest (p + 1) = 35 :: l ->
+    stepf (mk PathSt p false buf a br pw u) =
+    Cont (mk FragmentSt (p + 1) false [] a br pw (set_fragment (path_commit u buf false) (Some []))).
+  Proof using Hrep Hfail.
+    intros Hp Hr. destruct (rest_uncons (p + 1)%Z _ _ ltac:(lia) Hr) as [Hc [Hr' Hn]].
+    unfold_step. replace (n <=? p + 1)%Z with false by lia. cbv beta iota. rewrite Hc.
+    unfold isSpecialSchemeAndBackslash. replace (35 =? 92) with false by reflexivity.
+    rewrite !andb_false_r.
+    replace (35 =? 47) with false by reflexivity. replace (35 =? 63) with false by reflexivity.
+    replace (35 =? 35) with true by reflexivity.
+    cbn [orb negb andb]. unfold path_commit. cbv zeta.
+    destruct (isDoubleDotPathSegment buf); [reflexivity|]. destruct (isSingleDotPathSegment buf); reflexivity.
+  Qed.
+
+  Lemma step_path_eof p buf a br pw u :
+    (-1 <= p)%Z -> rest (p + 1) = [] ->
+    stepf (mk PathSt p false buf a br pw u) = Cont (mk PathSt (p + 1) true [] a br pw (path_commit u buf false)).
+  Proof using Hrep Hfail.
+    intros Hp Hr. pose proof (rest_empty (p + 1)%Z ltac:(lia) Hr) as Hn.
+    unfold_step. replace (n <=? p + 1)%Z with true by lia. cbv beta iota.
+    unfold isSpecialSchemeAndBackslash. replace (rune_error =? 92) with false by reflexivity.
+    rewrite !andb_false_r.
+    replace (rune_error =? 47) with false by reflexivity. replace (rune_error =? 63) with false by reflexivity.
+    replace (rune_error =? 35) with false by reflexivity.
+    cbn [orb negb andb]. unfold path_commit. cbv zeta.
+    destruct (isDoubleDotPathSegment buf); [reflexivity|]. destruct (isSingleDotPathSegment buf); reflexivity.
+  Qed.
+
+  Lemma path_commit_seg u buf sl :
+    c_collapse c = false -> dotseg buf = false ->
+    (str_eqb (u_scheme u) s_file = true -> u_path u = [] -> isWindowsDriveLetter buf = true -> c_skipDrive c = false ->
+     isNormalizedWindowsDriveLetter buf = true) ->
+    path_commit u buf sl = addSegment u buf.
+  Proof using.
+    intros Hcol Hd Hdrv. unfold dotseg in Hd. apply orb_false_iff in Hd. destruct Hd as [Hd1 Hd2].
+    unfold path_commit. cbv zeta. rewrite Hd1, Hd2, Hcol. cbn [andb negb orb]. rewrite orb_false_r.
+    destruct (str_eqb (u_scheme u) s_file) eqn:E1; [|reflexivity].
+    destruct (is_nil (u_path u)) eqn:E2; [|reflexivity].
+    destruct (isWindowsDriveLetter buf) eqn:E3; [|reflexivity].
+    destruct (c_skipDrive c) eqn:E4; [reflexivity|]. cbn [andb negb].
+    apply is_nil_true in E2. specialize (Hdrv eq_refl E2 eq_refl eq_refl).
+    unfold isNormalizedWindowsDriveLetter in Hdrv.
+    destruct buf as [|b0 [|b1 [|b2 r]]]; try discriminate Hdrv.
+    apply andb_true_iff in Hdrv. destruct Hdrv as [_ Hb]. apply N.eqb_eq in Hb. subst b1. reflexivity.
+  Qed.
+
+  Lemma path_commit_dot_slash u : path_commit u [46] true = u.
+  Proof using. unfold path_commit. cbv zeta. reflexivity. Qed.
+
+  Lemma seg_loop : forall seg p buf a br pw u tl,
+    c_singlePct c = false ->
+    (-1 <= p)%Z -> rest (p + 1) = seg ++ tl -> forallb (path_char (IsSpecialScheme c u)) seg = true ->
+    reaches (mk PathSt p false buf a br pw u) (mk PathSt (p + len seg) false (buf ++ seg) a br pw u).
+  Proof using Hrep Hfail.
+    induction seg as [|x l IH]; intros p buf a br pw u tl Hsp Hp Hr Hl.
+    - rewrite len_nil, Z.add_0_r, app_nil_r. apply reaches_refl.
+    - cbn [forallb] in Hl. apply andb_true_iff in Hl. destruct Hl as [Hx Hl].
+      cbn [app] in Hr. destruct (rest_uncons (p + 1)%Z x _ ltac:(lia) Hr) as [Hc [Hr' Hn]].
+      eapply reaches_trans.
+      + eapply reaches_step; [apply (step_path_char p buf a br pw u x _ Hsp Hp Hr Hx)|reflexivity].
+      + eapply reaches_eq; [apply (IH (p + 1)%Z _ a br pw _ tl Hsp ltac:(lia) Hr' Hl)|].
+        rewrite len_cons, <- app_assoc. cbn [app]. f_equal. lia.
+  Qed.
+
+  Definition seg_good (sp : bool) (s : str) : bool := forallb (path_char sp) s && negb (dotseg s).
+
+  (* the path, one segment after the other, and what follows it *)
+  Theorem path_phase : forall segs seg p a br pw u oq of,
+    c_singlePct c = false -> c_collapse c = false ->
+    RuneShouldBeEncoded (queryset c u) 35 = true ->
+    (-1 <= p)%Z -> rest (p + 1) = seg ++ flat_map (fun s => 47 :: s) segs ++ q_tail oq ++ f_tail of ->
+    forallb (seg_good (IsSpecialScheme c u)) (seg :: segs) = true ->
+    (str_eqb (u_scheme u) s_file = true -> u_path u = [] -> isWindowsDriveLetter seg = true -> c_skipDrive c = false ->
+     isNormalizedWindowsDriveLetter seg = true) ->
+    (forall q, oq = Some q -> none_in (queryset c u) q = true) ->
+    (forall f, of = Some f -> none_in (fragset c u) f = true) ->
+    finishes (mk PathSt p false [] a br pw u) (with_f (with_q (set_path u (u_path u ++ seg :: segs) false) oq) of).
+  Proof using Hrep Hfail.
+    induction segs as [|s1 segs IH]; intros seg p a br pw u oq of Hsp Hcol H35 Hp Hr Hg Hdrv Hq Hf.
+    - cbn [flat_map app] in Hr. cbn [forallb] in Hg. rewrite andb_true_r in Hg.
+      unfold seg_good in Hg. apply andb_true_iff in Hg. destruct Hg as [Hch Hnd]. apply negb_true_iff in Hnd.
+      eapply reaches_finishes; [apply (seg_loop seg p [] a br pw u _ Hsp Hp Hr Hch)|].
+      cbn [app]. pose proof (rest_app (p + 1)%Z _ _ ltac:(lia) Hr) as Hr'.
+      replace (p + 1 + len seg)%Z with (p + len seg + 1)%Z in Hr' by ring.
+      pose proof (len_nonneg seg) as Hl.
+      pose proof (path_commit_seg u seg false Hcol Hnd Hdrv) as Hpc.
+      destruct oq as [q|]; cbn [q_tail with_q app] in *.
+      + eapply reaches_finishes.
+        * eapply reaches_step; [apply (step_path_q (p + len seg)%Z _ a br pw _ _ ltac:(lia) Hr')|reflexivity].
+        * destruct (rest_uncons (p + len seg + 1)%Z _ _ ltac:(lia) Hr') as [_ [Hr2 _]]. rewrite Hpc.
+          eapply finishes_eq;
+            [apply (query_tail (p + len seg + 1)%Z a br pw _ q of ltac:(lia) Hr2);
+             [reflexivity|exact H35|apply Hq; reflexivity|exact Hf]|].
+          destruct of; reflexivity.
+      + destruct of as [f|]; cbn [f_tail with_f] in *.
+        * eapply reaches_finishes.
+          -- eapply reaches_step; [apply (step_path_h (p + len seg)%Z _ a br pw _ _ ltac:(lia) Hr')|reflexivity].
+          -- destruct (rest_uncons (p + len seg + 1)%Z _ _ ltac:(lia) Hr') as [_ [Hr2 _]]. rewrite Hpc.
+             eapply finishes_eq; [apply (frag_tail (p + len seg + 1)%Z a br pw _ f ltac:(lia) Hr2); apply Hf; reflexivity|].
+             reflexivity.
+        * eapply finishes_eq.
+          -- eapply finishes_step; [apply (step_path_eof (p + len seg)%Z _ a br pw _ ltac:(lia) Hr')|reflexivity].
+          -- cbn [mk m_url]. rewrite Hpc. reflexivity.
+    - cbn [flat_map] in Hr. rewrite <- !app_assoc in Hr. cbn [app] in Hr.
+      cbn [forallb] in Hg. apply andb_true_iff in Hg. destruct Hg as [Hg Hgs].
+      unfold seg_good in Hg. apply andb_true_iff in Hg. destruct Hg as [Hch Hnd]. apply negb_true_iff in Hnd.
+      eapply reaches_finishes; [apply (seg_loop seg p [] a br pw u _ Hsp Hp Hr Hch)|].
+      cbn [app]. pose proof (rest_app (p + 1)%Z _ _ ltac:(lia) Hr) as Hr'.
+      replace (p + 1 + len seg)%Z with (p + len seg + 1)%Z in Hr' by ring.
+      pose proof (len_nonneg seg) as Hl.
+      pose proof (path_commit_seg u seg true Hcol Hnd Hdrv) as Hpc.
+      eapply reaches_finishes.
+      + eapply reaches_step; [apply (step_path_slash (p + len seg)%Z _ a br pw _ _ ltac:(lia) Hr')|reflexivity].
+      + destruct (rest_uncons (p + len seg + 1)%Z _ _ ltac:(lia) Hr') as [_ [Hr2 _]]. rewrite Hpc.
+        eapply finishes_eq.
+        * apply (IH s1 (p + len seg + 1)%Z a br pw (addSegment u seg) oq of Hsp Hcol H35 ltac:(lia)).
+          -- rewrite Hr2, <- !app_assoc. reflexivity.
+          -- exact Hgs.
+          -- intros _ E. exfalso. cbn [addSegment set_path u_path] in E. destruct (u_path u); discriminate E.
+          -- exact Hq.
+          -- exact Hf.
+        * cbn [addSegment set_path u_path]. rewrite <- app_assoc. cbn [app].
+          destruct oq, of; reflexivity.
+  Qed.
 End Phases.
